@@ -7,6 +7,7 @@
 package interfaces
 
 import (
+	"bytes"
 	"fmt"
 	"github.com/orbs-network/lean-helix-go/spec/types/go/primitives"
 	"github.com/orbs-network/lean-helix-go/spec/types/go/protocol"
@@ -100,7 +101,43 @@ func ParseConsensusMessage(consensusMessage *ConsensusRawMessage) (message Conse
 		return nil, fmt.Errorf("unrecognized consensus message content")
 	}
 	_ = message.String() // reads every field, nested proofs and votes included
+	if !hasCanonicalSignedContent(message) {
+		return nil, fmt.Errorf("signed content of the consensus message is not in canonical encoding")
+	}
 	return message, nil
+}
+
+// Prepared proofs, NEW_VIEW confirmations and block proofs are rebuilt from the field values of
+// stored messages and carry the senders' original signatures (one block reference for all PREPARE or
+// COMMIT senders). Such a signature only verifies again if it was made over exactly the bytes the
+// builders produce from those values, so content that reads the same but is encoded differently
+// (trailing or padding bytes) is not accepted.
+func hasCanonicalSignedContent(message ConsensusMessage) bool {
+	switch m := message.(type) {
+	case *PreprepareMessage:
+		return isCanonicalBlockRef(m.content.SignedHeader())
+	case *PrepareMessage:
+		return isCanonicalBlockRef(m.content.SignedHeader())
+	case *CommitMessage:
+		return isCanonicalBlockRef(m.content.SignedHeader())
+	case *ViewChangeMessage:
+		rebuilt := ExtractConfirmationsFromViewChangeMessages([]*ViewChangeMessage{m})[0].Build()
+		return bytes.Equal(m.content.Raw(), rebuilt.Raw())
+	case *NewViewMessage:
+		return isCanonicalBlockRef(m.content.Message().SignedHeader())
+	}
+	return true
+}
+
+func isCanonicalBlockRef(ref *protocol.BlockRef) bool {
+	rebuilt := (&protocol.BlockRefBuilder{
+		MessageType: ref.MessageType(),
+		InstanceId:  ref.InstanceId(),
+		BlockHeight: ref.BlockHeight(),
+		View:        ref.View(),
+		BlockHash:   ref.BlockHash(),
+	}).Build()
+	return bytes.Equal(ref.Raw(), rebuilt.Raw())
 }
 
 func ToConsensusMessage(consensusMessage *ConsensusRawMessage) ConsensusMessage {
